@@ -1,3 +1,4 @@
+import os
 from vf.core import Property, Harness, Unit
 
 U0 = Unit('att_c06_0', shim='shims/att_c06.cpp', flags=['-DVF_C06_CFG=0'],
@@ -15,9 +16,15 @@ def mem_cases(tier):
     cs += [{'OPC': 0x12, 'LEN': l} for l in ([3, 4, 5, 7, 8, 22, 23] if q else range(3, 24))]
     cs += [{'OPC': 0x52, 'LEN': l} for l in ([3, 4, 7, 8, 23] if q else range(3, 24))]
     cs += [{'OPC': 0x16, 'LEN': l} for l in ([5, 6, 23] if q else range(5, 24))]
-    cs += [{'OPC': 0x0e, 'LEN': l} for l in [5, 7]]
-    cs += [{'OPC': 0x08, 'LEN': 7}]
-    return cs
+    cs += [{'OPC': 0x0e, 'LEN': 5}]
+    if not q:   # 3 handles / Read By Type with symbolic range over 19 attributes: thorough only
+        cs += [{'OPC': 0x0e, 'LEN': 7}, {'OPC': 0x08, 'LEN': 7}]
+    return only(cs)
+
+
+def only(cs):
+    o = os.environ.get('C06_ONLY_OPC')             # debugging aid: restrict to some opcodes, e.g. C06_ONLY_OPC=10,18
+    return [c for c in cs if str(c['OPC']) in o.split(',')] if o else cs
 
 
 def hdl_cases(tier):
@@ -25,18 +32,19 @@ def hdl_cases(tier):
     cs = [{'OPC': 0x0a, 'LEN': 3}, {'OPC': 0x0c, 'LEN': 5}]
     cs += [{'OPC': 0x12, 'LEN': l} for l in ([3, 4, 5, 6, 23] if q else range(3, 24))]
     cs += [{'OPC': 0x52, 'LEN': l} for l in ([3, 5, 23] if q else range(3, 24))]
-    cs += [{'OPC': 0x0e, 'LEN': l} for l in [5, 7]]
-    cs += [{'OPC': 0x08, 'LEN': 7}]
-    return cs
+    cs += [{'OPC': 0x0e, 'LEN': 5}]
+    if not q:
+        cs += [{'OPC': 0x0e, 'LEN': 7}, {'OPC': 0x08, 'LEN': 7}]
+    return only(cs)
 
 
 PROPERTY = Property(
     'C06',
-    [Harness('c06_mem', U0, 'harness/c06_mem.c', mem_cases, unwind=40, timeout=600, diff_cases=6,
+    [Harness('c06_mem', U0, 'harness/c06_mem.c', mem_cases, unwind=40, unwindset=['vf_c06_input.0:21', 'vf_c06_input.1:21', 'vf_c06_input.2:5'], timeout=1800, diff_cases=2, diff_iters=60,
              description='memory bound, const, fixed and string values: symbolic pre-state of all bound values (37 bytes), one request (Read, Read Blob, Write Request, '
                          'Write Command, Prepare Write, Read Multiple, Read By Type) with symbolic handle / offset / data; response and post-state vs. model over the expected attribute table',
              bounds='19 attributes; opcode x PDU length from the case table; ATT MTU 23; Read Multiple 2 or 3 handles; Read By Type with 16 bit type'),
-     Harness('c06_hdl', U1, 'harness/c06_hdl.c', hdl_cases, unwind=40, timeout=600, diff_cases=6,
+     Harness('c06_hdl', U1, 'harness/c06_hdl.c', hdl_cases, unwind=40, unwindset=['vf_c06_input.0:21', 'vf_c06_input.1:21', 'vf_c06_input.2:5'], timeout=1800, diff_cases=2, diff_iters=60,
              description='handler based values: user handlers are symbolic stubs that record their invocation; one request with symbolic handle / offset / data; which handler runs, '
                          'with which arguments, and the response vs. the permission table; properties byte of every declaration',
              bounds='19 attributes (8 characteristics, 2 CCCDs); opcode x PDU length from the case table; ATT MTU 23; Read Multiple 2 or 3 handles')],
